@@ -413,9 +413,15 @@ func (h *verifC13Harness) commit(op string) string {
 	rnd := basics.Round(vh.U(kv["r"]))
 	trk := h.trk
 	if h.l != nil {
-		// the Ledger's own block queue syncer / commit syncer run in the background: let them settle first
+		// variant L: the Ledger has its own committer (blockQ syncer -> notifyCommit -> scheduleCommit -> commitSyncer); a second
+		// committer next to it would not be the node's behaviour. Ask THAT path to flush now and wait for it.
 		h.l.WaitForCommit(h.l.Latest())
+		trk.mu.Lock()
+		trk.lastFlushTime = time.Time{}
+		trk.mu.Unlock()
+		h.l.notifyCommit(rnd)
 		trk.waitAccountsWriting()
+		return fmt.Sprintf("ok db=%d voters=%s", h.ao.cachedDBRoundOnline, h.waitVoters())
 	}
 	maxLookback := basics.Round(0)
 	for _, lt := range trk.trackers {
